@@ -8,6 +8,7 @@ import (
 	"encoding/json"
 	"sort"
 	"strings"
+	"time"
 )
 
 // ---------- operations ----------
@@ -24,6 +25,7 @@ type Op struct {
 	Mentor *string        `json:"mentor,omitempty"`
 	Tags   map[string]any `json:"tags,omitempty"`
 	IsSys  bool           `json:"isSys,omitempty"` // entity's system flag as handed to the store
+	Mig    bool           `json:"mig,omitempty"`   // the entity value carries Migrate=true and the timestamps of its source (migTime)
 	Groups []string       `json:"groups,omitempty"`
 
 	Level   int32  `json:"level,omitempty"`
@@ -103,15 +105,20 @@ type Model struct {
 	Tickets  map[string]*string // id -> assignee
 	Reviews  map[string]*string // id -> reviewer (a person with staff data)
 	Folders  map[string]*string // id -> parent folder
-	Memos    map[string]*string // id -> topic (a group)
-	Groups   map[string]bool
-	Links    map[pair]bool
-	Kudos    map[pair]int
+	Desks    map[string]*string // id -> occupant (any person)
+	Leads    map[pair]bool      // staff.leading <-> groups.leads (P must have staff data)
+	// PxMode: how the extended child store indexes its own field (a schema variant): 0 nullable unique index,
+	// 1 unique index that refuses the empty value, 2 no index (the child store then declares nothing of its own)
+	PxMode int
+	Memos  map[string]*string // id -> topic (a group)
+	Groups map[string]bool
+	Links  map[pair]bool
+	Kudos  map[pair]int
 }
 
 func NewModel() *Model {
 	return &Model{Depts: map[string]string{}, People: map[string]*MPerson{}, Badges: map[string]string{}, BadgeSys: map[string]bool{},
-		Notes: map[string]*string{}, Tickets: map[string]*string{}, Reviews: map[string]*string{}, Folders: map[string]*string{}, Memos: map[string]*string{}, Groups: map[string]bool{},
+		Notes: map[string]*string{}, Tickets: map[string]*string{}, Reviews: map[string]*string{}, Folders: map[string]*string{}, Desks: map[string]*string{}, Leads: map[pair]bool{}, Memos: map[string]*string{}, Groups: map[string]bool{},
 		Links: map[pair]bool{}, Kudos: map[pair]int{}}
 }
 
@@ -133,6 +140,7 @@ func cloneTags(t map[string]any) map[string]any {
 
 func (m *Model) Clone() *Model {
 	r := NewModel()
+	r.PxMode = m.PxMode
 	for k, v := range m.Depts {
 		r.Depts[k] = v
 	}
@@ -161,6 +169,12 @@ func (m *Model) Clone() *Model {
 	}
 	for k, v := range m.Folders {
 		r.Folders[k] = cloneStrP(v)
+	}
+	for k, v := range m.Desks {
+		r.Desks[k] = cloneStrP(v)
+	}
+	for k, v := range m.Leads {
+		r.Leads[k] = v
 	}
 	for k, v := range m.Memos {
 		r.Memos[k] = cloneStrP(v)
@@ -230,6 +244,9 @@ type PersonSnap struct {
 	Level     int32          `json:"level,omitempty"`
 	BadgeNo   string         `json:"badgeNo,omitempty"`
 	Memo      string         `json:"memo,omitempty"`
+	Salary    int64          `json:"salary,omitempty"`
+	Rate      float64        `json:"rate,omitempty"`
+	Hired     int64          `json:"hired,omitempty"`
 }
 
 func jsonOf(v any) string {
@@ -246,6 +263,8 @@ func (m *Model) personSnap(p *MPerson, view string) string {
 	switch view {
 	case StStaff:
 		s.Level, s.BadgeNo = p.Level, p.BadgeNo
+		salary, rate, hired := staffDerived(p.Level)
+		s.Salary, s.Rate, s.Hired = salary, rate, hired.UnixNano()
 	case StPX:
 		s.Memo = p.Memo
 	}
@@ -300,6 +319,10 @@ func (m *Model) snapOf(store, id string) string {
 		}
 	case StFolders:
 		if a, ok := m.Folders[id]; ok {
+			return simpleSnap(store, id, "", a)
+		}
+	case StDesks:
+		if a, ok := m.Desks[id]; ok {
 			return simpleSnap(store, id, "", a)
 		}
 	case StMemos:
@@ -512,18 +535,25 @@ func (m *Model) applyCreate(op Op, now int64) Outcome {
 				}
 			}
 		}
-		if op.S == StPX && op.Memo != "" {
+		if op.S == StPX && op.Memo != "" && m.PxMode != 2 {
 			for _, o := range m.People {
 				if o.HasPX && o.Memo == op.Memo {
 					a.add("memo-dup", EcDup)
 				}
 			}
 		}
+		if op.S == StPX && op.Memo == "" && m.PxMode == 1 {
+			a.add("memo-empty", EcAny)
+		}
 		if a.bad() {
 			return a.out()
 		}
 		p := &MPerson{Id: id, Name: op.Name, Nick: cloneStrP(op.Nick), Roles: sortedUnique(op.Roles), Dept: op.Dept,
 			Mentor: cloneStrP(op.Mentor), Tags: cloneTags(op.Tags), Sys: op.IsSys, CreatedAt: now, UpdatedAt: now}
+		if op.Mig {
+			// a migrated entity is created with the timestamps it brings along (an update ignores them)
+			p.CreatedAt, p.UpdatedAt = migTime.UnixNano(), migTime.UnixNano()
+		}
 		if op.S == StStaff {
 			p.HasStaff, p.Level, p.BadgeNo = true, op.Level, op.BadgeNo
 		}
@@ -561,7 +591,7 @@ func (m *Model) applyCreate(op Op, now int64) Outcome {
 		m.Badges[id] = owner
 		m.BadgeSys[id] = op.IsSys
 		return Outcome{OK: true, Events: []Ev{{StBadges, EvCreate, id, m.snapOf(StBadges, id), false}}}
-	case StNotes, StTickets, StMemos, StReviews, StFolders:
+	case StNotes, StTickets, StMemos, StReviews, StFolders, StDesks:
 		tbl := m.refTable(op.S)
 		if _, ok := tbl[id]; ok {
 			return reject("exists", EcAny)
@@ -741,12 +771,15 @@ func (m *Model) applyUpdate(op Op, now int64) Outcome {
 				}
 			}
 		}
-		if via == StPX && n.Memo != p.Memo && n.Memo != "" {
+		if via == StPX && n.Memo != p.Memo && n.Memo != "" && m.PxMode != 2 {
 			for oid, o := range m.People {
 				if oid != id && o.HasPX && o.Memo == n.Memo {
 					rejAdd("memo-dup", EcDup)
 				}
 			}
+		}
+		if via == StPX && n.Memo != p.Memo && n.Memo == "" && m.PxMode == 1 {
+			rejAdd("memo-empty", EcAny)
 		}
 		if a.bad() {
 			return a.out()
@@ -793,7 +826,7 @@ func (m *Model) applyUpdate(op Op, now int64) Outcome {
 		}
 		m.Badges[id] = owner
 		return Outcome{OK: true, Events: []Ev{{StBadges, EvUpdate, id, m.snapOf(StBadges, id), false}}}
-	case StNotes, StTickets, StMemos, StReviews, StFolders:
+	case StNotes, StTickets, StMemos, StReviews, StFolders, StDesks:
 		tbl, field := m.refTable(op.S), refField(op.S)
 		cur, ok := tbl[id]
 		if !ok {
@@ -869,6 +902,12 @@ func (m *Model) applyDelete(op Op) Outcome {
 				break
 			}
 		}
+		for _, a := range m.Desks {
+			if a != nil && *a == id {
+				rejAdd("desk-referenced", EcRefExists)
+				break
+			}
+		}
 		for _, a := range m.Reviews {
 			// (the restrict constraint belongs to the staff store: whichever store the delete goes through, the
 			// entity's staff part is deleted and the constraint must be consulted)
@@ -925,6 +964,11 @@ func (m *Model) applyDelete(op Op) Outcome {
 				delete(m.Links, k)
 			}
 		}
+		for k := range m.Leads {
+			if k.P == id {
+				delete(m.Leads, k)
+			}
+		}
 		for k := range m.Kudos {
 			if k.P == id {
 				delete(m.Kudos, k)
@@ -947,7 +991,7 @@ func (m *Model) applyDelete(op Op) Outcome {
 		delete(m.Badges, id)
 		delete(m.BadgeSys, id)
 		return Outcome{OK: true, Events: []Ev{ev}, Deleted: []IdRef{{StBadges, id}}}
-	case StNotes, StTickets, StMemos, StReviews:
+	case StNotes, StTickets, StMemos, StReviews, StDesks:
 		tbl := m.refTable(op.S)
 		if _, ok := tbl[id]; !ok {
 			return reject("absent", EcNotFound)
@@ -1003,6 +1047,11 @@ func (m *Model) applyDelete(op Op) Outcome {
 				delete(m.Links, k)
 			}
 		}
+		for k := range m.Leads {
+			if k.G == id {
+				delete(m.Leads, k)
+			}
+		}
 		for k := range m.Kudos {
 			if k.G == id {
 				delete(m.Kudos, k)
@@ -1043,6 +1092,12 @@ func (m *Model) applyDeleteWhere(op Op) Outcome {
 		}
 	case StFolders:
 		for id, a := range m.Folders {
+			if a != nil && *a == op.Q {
+				ids = append(ids, id)
+			}
+		}
+	case StDesks:
+		for id, a := range m.Desks {
 			if a != nil && *a == op.Q {
 				ids = append(ids, id)
 			}
@@ -1090,25 +1145,33 @@ func (m *Model) applyDeleteWhere(op Op) Outcome {
 
 // link ops. op.S is the side the call is issued on (people: Id is a person, Keys are groups; groups: the reverse).
 func (m *Model) applyLink(op Op) Outcome {
+	// two collections: people.groups <-> groups.members (sides people / groups) and staff.leading <-> groups.leads
+	// (sides staff / leads; the person side needs staff data)
+	links, personSide, needStaff := m.Links, op.S == StPeople, false
+	if op.S == StStaff || op.S == SideLeads {
+		links, personSide, needStaff = m.Leads, op.S == StStaff, true
+	}
+	personOK := func(id string) bool {
+		p, ok := m.People[id]
+		return ok && (!needStaff || p.HasStaff)
+	}
 	mk := func(a, b string) pair {
-		if op.S == StPeople {
+		if personSide {
 			return pair{a, b}
 		}
 		return pair{b, a}
 	}
 	localExists := func(id string) bool {
-		if op.S == StPeople {
-			_, ok := m.People[id]
-			return ok
+		if personSide {
+			return personOK(id)
 		}
 		return m.Groups[id]
 	}
 	remoteExists := func(id string) bool {
-		if op.S == StPeople {
+		if personSide {
 			return m.Groups[id]
 		}
-		_, ok := m.People[id]
-		return ok
+		return personOK(id)
 	}
 	if !localExists(op.Id) {
 		return reject("link-local-missing", EcAny)
@@ -1121,7 +1184,7 @@ func (m *Model) applyLink(op Op) Outcome {
 			}
 		}
 		for _, k := range op.Keys {
-			m.Links[mk(op.Id, k)] = true
+			links[mk(op.Id, k)] = true
 		}
 		return Outcome{OK: true}
 	case "addLink":
@@ -1129,18 +1192,18 @@ func (m *Model) applyLink(op Op) Outcome {
 		if !remoteExists(k) {
 			return reject("link-remote-missing", EcNotFound, EcAny)
 		}
-		changed := !m.Links[mk(op.Id, k)]
-		m.Links[mk(op.Id, k)] = true
+		changed := !links[mk(op.Id, k)]
+		links[mk(op.Id, k)] = true
 		return Outcome{OK: true, Changed: &changed}
 	case "removeLinks":
 		for _, k := range op.Keys {
-			delete(m.Links, mk(op.Id, k))
+			delete(links, mk(op.Id, k))
 		}
 		return Outcome{OK: true}
 	case "removeLink":
 		k := op.Keys[0]
-		changed := m.Links[mk(op.Id, k)]
-		delete(m.Links, mk(op.Id, k))
+		changed := links[mk(op.Id, k)]
+		delete(links, mk(op.Id, k))
 		return Outcome{OK: true, Changed: &changed}
 	case "setLinks":
 		// a missing target only matters if it has to be added (it can never be currently linked)
@@ -1149,13 +1212,13 @@ func (m *Model) applyLink(op Op) Outcome {
 				return reject("link-remote-missing", EcNotFound, EcAny)
 			}
 		}
-		for k := range m.Links {
-			if (op.S == StPeople && k.P == op.Id) || (op.S == StGroups && k.G == op.Id) {
-				delete(m.Links, k)
+		for k := range links {
+			if (personSide && k.P == op.Id) || (!personSide && k.G == op.Id) {
+				delete(links, k)
 			}
 		}
 		for _, k := range op.Keys {
-			m.Links[mk(op.Id, k)] = true
+			links[mk(op.Id, k)] = true
 		}
 		return Outcome{OK: true}
 	}
@@ -1246,6 +1309,8 @@ func (m *Model) refTable(store string) map[string]*string {
 		return m.Reviews
 	case StFolders:
 		return m.Folders
+	case StDesks:
+		return m.Desks
 	case StMemos:
 		return m.Memos
 	}
@@ -1253,7 +1318,7 @@ func (m *Model) refTable(store string) map[string]*string {
 }
 
 func refField(store string) string {
-	return map[string]string{StNotes: "about", StTickets: "assignee", StMemos: "topic", StReviews: "reviewer", StFolders: "parent"}[store]
+	return map[string]string{StNotes: "about", StTickets: "assignee", StMemos: "topic", StReviews: "reviewer", StFolders: "parent", StDesks: "occupant"}[store]
 }
 
 func (m *Model) refTargetExists(store, id string) bool {
@@ -1305,3 +1370,9 @@ func tagsNested(t map[string]any) bool {
 	}
 	return false
 }
+
+// pxMode: the px index variant of a plan's schema bits.
+func pxMode(schema int) int { return (schema >> 3) % 3 }
+
+// migTime: the timestamps a migrated entity carries.
+var migTime = time.Unix(1262304000, 0).UTC()
